@@ -336,6 +336,17 @@ class SStr(SVal):
     def meth_encode(self, cx, *a):
         return self  # bytes modelled as the same code-point sequence (ASCII/UTF-8 payloads only)
 
+    def meth_split(self, cx, sep=None, maxsplit=-1):
+        if sep is None or maxsplit != -1:
+            raise Unsupported("str.split without separator / with maxsplit")
+        return SplitVal(self.t, term(sep))
+
+    def meth_strip(self, cx, chars=None):
+        if not isinstance(chars, str):
+            raise Unsupported("str.strip() of symbolic chars / whitespace")
+        f = z3.Function("str_strip_" + "_".join(str(ord(c)) for c in chars), z3.StringSort(), z3.StringSort())
+        return SStr(f(self.t))  # opaque spec function (only equal inputs give equal outputs)
+
     def __repr__(self):
         return f"SStr({self.t})"
 
@@ -345,6 +356,24 @@ def _norm_index(i, n, clamp=False):
     if clamp:
         j = z3.If(j < 0, 0, z3.If(j > n, n, j))
     return j
+
+
+class SplitVal(SVal):
+    """s.split(sep): only the first and the last part are available (parts in between need a length bound)."""
+
+    def __init__(self, s, sep):
+        self.s, self.sep = s, sep
+
+    def py_getitem(self, cx, idx):
+        s, sep = self.s, self.sep
+        if idx == 0:
+            i = z3.IndexOf(s, sep, 0)
+            return SStr(z3.If(i < 0, s, z3.SubString(s, 0, i)))
+        if idx == -1:
+            i = z3.LastIndexOf(s, sep)
+            start = i + z3.Length(sep)
+            return SStr(z3.If(i < 0, s, z3.SubString(s, start, z3.Length(s) - start)))
+        raise Unsupported("str.split(...)[i] for an inner part")
 
 
 class SliceVal:
